@@ -9,7 +9,7 @@ use serde::{Deserialize, Serialize};
 use serde_json::json;
 use std::collections::BTreeMap;
 
-pub const KINDS: &[&str] = &["payload", "nil", "syntax-error", "runtime-error", "no-validate", "returns-number", "returns-boolean", "returns-table", "error-with-table"];
+pub const KINDS: &[&str] = &["payload", "nil", "syntax-error", "runtime-error", "no-validate", "returns-number", "returns-boolean", "returns-table", "error-with-table", "returns-true"];
 
 #[derive(Clone, Debug, Serialize, Deserialize, Hash, PartialEq, Eq)]
 pub struct LBlock {
@@ -66,6 +66,11 @@ fn script(kind: &str, busy: u32, log: Option<(&str, &str)>) -> String {
     };
     let payload = "  local keys = {}\n  for k, _ in pairs(ctx.attrs) do keys[#keys + 1] = k end\n  table.sort(keys)\n  local parts = {\"<<\", ctx.file, \"|\", tostring(ctx.line), \"|\"}\n  for _, k in ipairs(keys) do parts[#parts + 1] = k .. \"=\" .. ctx.attrs[k] .. \";\" end\n  parts[#parts + 1] = \"|\" .. content .. \">>\"\n  return table.concat(parts)\n";
     match kind {
+        // one payload script in three walks its parts through a producer coroutine of its own (busy loop inside it)
+        "payload" if busy % 3 == 1 => format!(
+            "function validate(ctx, content)\n{logging}  local gen = coroutine.wrap(function()\n{busy_loop}{}  for _, p in ipairs(parts) do coroutine.yield(p) end\n  end)\n  local out = {{}}\n  for p in gen do out[#out + 1] = p end\n  return table.concat(out)\nend\n",
+            payload.replace("  return table.concat(parts)\n", "")
+        ),
         "payload" => format!("function validate(ctx, content)\n{logging}{busy_loop}{payload}end\n"),
         "nil" => format!("function validate(ctx, content)\n{logging}{busy_loop}  return nil\nend\n"),
         "empty-string" => format!("function validate(ctx, content)\n{logging}{busy_loop}  return table.concat({{}}, \"; \")\nend\n"),
@@ -74,6 +79,7 @@ fn script(kind: &str, busy: u32, log: Option<(&str, &str)>) -> String {
         "no-validate" => "local function helper() return nil end\nvalidate_typo = helper\n".to_string(),
         "returns-number" => format!("function validate(ctx, content)\n{busy_loop}  return 42\nend\n"),
         "returns-boolean" => "function validate(ctx, content)\n  return false\nend\n".to_string(),
+        "returns-true" => "function validate(ctx, content)\n  return true\nend\n".to_string(),
         "returns-table" => "function validate(ctx, content)\n  return {\"not a string\"}\nend\n".to_string(),
         "error-with-table" => "function validate(ctx, content)\n  error({code = 1})\nend\n".to_string(),
         _ => unreachable!(),
@@ -326,7 +332,7 @@ pub fn case_strategy() -> BoxedStrategy<LuaCase> {
 }
 
 pub fn run(run: &mut Run) {
-    run.rule = "random: 1..40 check-lua blocks over up to 5 files (root and nested directories, one with a space; py/sh/toml/yaml), each with its own generated script, except that 25% reuse the script and the content lines of the nearest earlier scripted block (same or other file; only position and tag differ) (20% of the blocks carry no check-lua at all and sit between scripted ones), arbitrary content lines (printable ASCII incl. quotes and backslashes, Unicode, empty and whitespace-only first/last lines), 0..2 extra attributes, optional check-lua-pattern from the key-pattern family; scripts return a framed payload serialising ctx.file, ctx.line, the sorted ctx.attrs and content, or nil, or (10%) the empty string — still one diagnostic —, after a busy loop of 0..300000 iterations; in half of the cases 1..3 blocks get a failing script (syntax error, error(), error with a table, no validate, number / boolean / table result) at any index; TOKIO_WORKER_THREADS in {1,2,4,16}, pinned to one core in 30%, `safe` mode with an appended call log in 50%, scan or new-file diff mode. Non-trivial = >= 3 blocks and (a failing script, or busy loops of different lengths).".into();
+    run.rule = "random: 1..40 check-lua blocks over up to 5 files (root and nested directories, one with a space; py/sh/toml/yaml), each with its own generated script, except that 25% reuse the script and the content lines of the nearest earlier scripted block (same or other file; only position and tag differ) (20% of the blocks carry no check-lua at all and sit between scripted ones), arbitrary content lines (printable ASCII incl. quotes and backslashes, Unicode, empty and whitespace-only first/last lines), 0..2 extra attributes, optional check-lua-pattern from the key-pattern family; scripts return a framed payload serialising ctx.file, ctx.line, the sorted ctx.attrs and content (a third of them assemble it through a producer coroutine of their own that also holds the busy loop), or nil, or (10%) the empty string — still one diagnostic —, after a busy loop of 0..300000 iterations; in half of the cases 1..3 blocks get a failing script (syntax error, error(), error with a table, no validate, number / false / true / table result) at any index; TOKIO_WORKER_THREADS in {1,2,4,16}, pinned to one core in 30%, `safe` mode with an appended call log in 50%, scan or new-file diff mode. Non-trivial = >= 3 blocks and (a failing script, or busy loops of different lengths).".into();
     run.assumptions = vec!["the Tokio schedule is perturbed (worker count, affinity, busy loops), not owned: an interleaving-specific loss could be missed".into()];
     run.shrink_iters = 120;
     run.random("lua", run.tier.pick(500, 12000), case_strategy, check);
